@@ -547,7 +547,8 @@ def c17_cm(rng, tier):
 def c17_atmos(rng, tier):
     from openaerostruct.common.atmos_group import AtmosGroup
     import openmdao.api as om
-    alt_m = float(rng.uniform(-900, 80000 * 0.3048 * 0.98))     # metres
+    # metres; the whole tabulated range of the 1976 atmosphere (the table is coarser above 100 000 ft)
+    alt_m = float(rng.uniform(100000, 150000 * 0.98) * 0.3048) if CURRENT_K % 2 else float(rng.uniform(-900, 80000 * 0.3048 * 0.98))
     M = float(rng.uniform(0.1, 0.9))
     prob = om.Problem(reports=False)
     prob.model.add_subsystem("atmos", AtmosGroup(), promotes=["*"])
@@ -588,7 +589,7 @@ def c17_atmos(rng, tier):
         if which == "Mach_number":
             M = float(rng.uniform(0.1, 0.9)); prob.set_val("Mach_number", M)
         else:
-            alt_m = float(rng.uniform(-900, 80000 * 0.3048 * 0.98)); prob.set_val("altitude", alt_m, units="m")
+            alt_m = float(rng.uniform(-900, (150000 if CURRENT_K % 2 else 80000) * 0.3048 * 0.98)); prob.set_val("altitude", alt_m, units="m")
         with quiet():
             prob.run_model()
         a = float(prob.get_val("speed_of_sound", units="m/s")[0]); v = float(prob.get_val("v", units="m/s")[0])
@@ -676,6 +677,11 @@ def c18_mesh_independence(rng, tier):
     re = float(10 ** rng.uniform(5.5, 7)); M = float(rng.uniform(0.75, 0.93)); CL = float(rng.uniform(0.3, 0.8))
     res = []
     sizes = [(2, 3), (3, 5), (2, 7), (4, 9), (3, 11)] if tier == "quick" else [(2, 3), (3, 5), (2, 7), (4, 9), (3, 11), (5, 15), (6, 21)]
+    if CURRENT_K % 2 == 1:
+        # a small model (wind-tunnel / hand-launched scale) with a very fine, cosine-clustered spanwise discretisation: strips far
+        # below a millimetre next to the tips
+        k = float(10 ** rng.uniform(-1.5, -0.5)); span *= k; chord *= k; re /= k
+        sizes = sizes[:3] + [(2, 301), (3, 641)]
     for (nx, num_y) in sizes:
         mesh = generate_mesh(dict(num_x=nx, num_y=num_y, wing_type="rect", symmetry=sym, span=span, root_chord=chord,
                                   span_cos_spacing=float(rng.uniform(0, 1)), chord_cos_spacing=float(rng.uniform(0, 1))))
